@@ -24,6 +24,8 @@ import fandango.evolution.mutation as MU
 NOPS = int(os.environ.get("H_OPS", "2"))
 OP0 = int(os.environ.get("H_OP0", "0"))
 SHAPE = int(os.environ.get("H_SHAPE", "0"))
+MAXARG = int(os.environ.get("H_MAXARG", "6"))
+LATER = [int(x) for x in os.environ.get("H_LATER", ",".join(str(i) for i in range(16))).split(",")]  # op codes allowed after the first
 SPEC = '<start> ::= <a> <b>\n<a> ::= "x" | "z" | <a> "x"\n<b> ::= "y" <a>? | <a> "q"\n'
 G = load(SPEC)
 NT = NonTerminal
@@ -225,7 +227,7 @@ def all_consistent(held):
 def bookkeeping(ops: List[int], args: List[int]) -> bool:
     """
     pre: len(ops) <= NOPS - 1 and len(args) == len(ops) + 1
-    pre: all(0 <= o < NOPC for o in ops) and all(0 <= a <= 6 for a in args)
+    pre: all(o in LATER for o in ops) and all(0 <= a <= MAXARG for a in args)
     post: _
     """
     shape = SHAPE
@@ -247,7 +249,7 @@ def bookkeeping(ops: List[int], args: List[int]) -> bool:
 def reach(ops: List[int], args: List[int]) -> bool:
     """
     pre: len(ops) <= NOPS - 1 and len(args) == len(ops) + 1
-    pre: all(0 <= o < NOPC for o in ops) and all(0 <= a <= 6 for a in args)
+    pre: all(o in LATER for o in ops) and all(0 <= a <= MAXARG for a in args)
     post: _
     """
     # twin: a full-length sequence ends with at least 3 held trees
